@@ -154,7 +154,8 @@ def server_thread(srv, cert, proxy, out):
 SSL_VERSIONS = {"absent": None, "TLS_CLIENT": ssl.PROTOCOL_TLS_CLIENT, "TLS": ssl.PROTOCOL_TLS, "TLSv1_2": ssl.PROTOCOL_TLSv1_2}
 
 
-def run_case(scheme, cert_reqs, check_hostname, trust, server_hostname, server_cert, route, ssl_version="absent", extras=None, via="connect", target="good.test"):
+def run_case(scheme, cert_reqs, check_hostname, trust, server_hostname, server_cert, route, ssl_version="absent", extras=None, via="connect", target="good.test",
+             shared_sslopt=None):
     """target: the host in the URL - a name, an IPv4 literal or a bracketed IPv6 literal (the fixture certificates carry DNS names only, so a
     certificate never matches an IP-literal target by name)."""
     thost = target.strip("[]")
@@ -192,6 +193,11 @@ def run_case(scheme, cert_reqs, check_hostname, trust, server_hostname, server_c
         sslopt["context"] = ctx
     if server_hostname != "absent":
         sslopt["server_hostname"] = server_hostname
+    if shared_sslopt is not None:
+        # the application keeps ONE sslopt dict and passes it to every connection it makes
+        if not shared_sslopt:
+            shared_sslopt.update(sslopt)
+        sslopt = shared_sslopt
     if extras == "ciphers":
         sslopt["ciphers"] = "DEFAULT"
     elif extras == "certfile":
@@ -367,6 +373,27 @@ def run_task(desc):
                 if f is not None:
                     runner.add_failure(res, dict(f[0], after_other_connection=True), f[1] + "  [after a connection with cert_reqs=%s check_hostname=%s trust=%s server_hostname=%s]" % a[1:5],
                                        {"history": [list(a), list(b)]})
+        # one sslopt dict shared by two connections to different hosts (the first spelled in several ways): the second connection is
+        # authenticated against ITS host
+        for first_target in ("good.test", "good.test.", "GOOD.test", "[2001:db8::7]", "192.0.2.7"):
+            for first_cert in ("ca-good", "ca-other"):
+                for second_cert in SERVER_CERT[:2]:
+                    for trust in ("ca_certs", "ca_cert_path"):
+                        n += 1
+                        shared = {}
+                        a = ("wss", "absent", "absent", trust, "absent", first_cert, "direct", "absent", None, "connect", first_target)
+                        b = ("wss", "absent", "absent", trust, "absent", second_cert, "direct", "absent", None, "connect", "other.test")
+                        try:
+                            run_case(*a, shared_sslopt=shared)
+                            f = run_case(*b, shared_sslopt=shared)
+                        except Exception as e:  # noqa
+                            v = as_violation(e)
+                            if v is None:
+                                raise
+                            f = (v.sig, v.what)
+                        if f is not None:
+                            runner.add_failure(res, dict(f[0], shared_sslopt=True), f[1] + "  [second connection with the sslopt dict already used for wss://%s/]" % first_target,
+                                               {"shared": [list(a), list(b)]})
         res["samples"].append({"history_pairs": n})
     elif desc["part"] == "ws":
         for cr, chk, tr in itertools.product(CERT_REQS, CHECK_HOST, TRUST[:5]):
@@ -413,6 +440,11 @@ def run_task(desc):
 
 
 def replay(rep):
+    if rep.get("shared"):
+        shared = {}
+        run_case(*rep["shared"][0], shared_sslopt=shared)
+        f = run_case(*rep["shared"][1], shared_sslopt=shared)
+        return None if f is None else {"sig": f[0], "what": f[1]}
     if rep.get("history"):
         run_case(*rep["history"][0])
         f = run_case(*rep["history"][1])
